@@ -22,6 +22,8 @@ class CallMixin:
                 with self.guarded(a):
                     b = self.truthy(self.ev(node.args[1], st))
                 return SV(z3.Implies(a, b), T.Bool)
+            if name == "truthy":
+                return SV(self.truthy(self.ev(node.args[0], st)), T.Bool)
             if name == "same":
                 a_, b_ = self.ev(node.args[0], st), self.ev(node.args[1], st)
                 return SV(a_.t == b_.t, T.Bool)
